@@ -34,6 +34,14 @@ pub struct Plan {
     pub s3: bool,
     pub fold: bool,
     pub use_date_header: bool,
+    /// textual rendering of the request time put on the wire (default: compact UTC); the instant
+    /// it denotes must be `t` (plus `t_frac_ns`)
+    pub date_text: Option<String>,
+    /// override of the credential scope the client names and signs for: (date, region, service, terminator)
+    pub scope_override: Option<(String, String, String, String)>,
+    /// override of the whole credential string put on the wire (signed string-to-sign still uses
+    /// everything after the first '/')
+    pub credential_override: Option<String>,
 }
 
 pub const SEG_POOL: [&[u8]; 22] = [
@@ -168,6 +176,9 @@ pub fn random_plan(rng: &mut Rng) -> Plan {
         s3,
         fold,
         use_date_header,
+        date_text: None,
+        scope_override: None,
+        credential_override: None,
     }
 }
 
@@ -305,9 +316,13 @@ pub fn wire_body(p: &Plan) -> Vec<u8> {
 
 /// Sign the plan and spell it on the wire.  `now_offset` is server time minus request time.
 pub fn build(p: &Plan, sp: &Spelling, rng: &mut Rng, now_offset_ns: i128) -> Built {
-    let amz_date = signer::compact_utc(p.t);
-    let scope = format!("{}/{}/{}/aws4_request", &amz_date[..8], p.region, p.service);
-    let credential = format!("{}/{}", String::from_utf8_lossy(&p.access_key), scope);
+    let amz_date_utc = signer::compact_utc(p.t);
+    let amz_date = p.date_text.clone().unwrap_or(amz_date_utc.clone());
+    let scope = match &p.scope_override {
+        Some((d, r, s, t)) => format!("{}/{}/{}/{}", d, r, s, t),
+        None => format!("{}/{}/{}/aws4_request", &amz_date_utc[..8], p.region, p.service),
+    };
+    let credential = p.credential_override.clone().unwrap_or(format!("{}/{}", String::from_utf8_lossy(&p.access_key), scope));
     let mut plan = p.clone();
     // date header (part of the request, signed when named)
     if !p.query_carrier {
@@ -339,7 +354,11 @@ pub fn build(p: &Plan, sp: &Spelling, rng: &mut Rng, now_offset_ns: i128) -> Bui
         }
     }
     let logical = logical_of(&plan, &auth_query);
-    let signed = signer::sign(&logical, &p.secret, p.t, &p.region, &p.service);
+    // the client signs for the scope it names (everything after the first '/' of the credential)
+    let named_scope = credential.split_once('/').map(|x| x.1.to_string()).unwrap_or_default();
+    let sp_parts: Vec<&str> = named_scope.split('/').collect();
+    let (kd, kr, ks) = if sp_parts.len() >= 3 { (sp_parts[0], sp_parts[1], sp_parts[2]) } else { (&amz_date_utc[..8], p.region.as_str(), p.service.as_str()) };
+    let signed = signer::sign_scoped(&logical, &p.secret, p.t, &named_scope, kd, kr, ks);
 
     // ---- wire spelling
     let mut path = Vec::new();
@@ -492,4 +511,15 @@ pub fn build(p: &Plan, sp: &Spelling, rng: &mut Rng, now_offset_ns: i128) -> Bui
 /// True if the wire path contains a literal '+' (known-finding class D1).
 pub fn has_plus_in_path(w: &Wire) -> bool {
     w.uri.split('?').next().unwrap_or("").contains('+')
+}
+
+/// A random plan for standard (non-S3) mode: no empty or dot segments.
+pub fn random_plan_std(rng: &mut Rng) -> Plan {
+    let mut p = random_plan(rng);
+    p.s3 = false;
+    p.segments.retain(|s| !s.is_empty() && s != b"." && s != b"..");
+    if p.segments.is_empty() {
+        p.trailing_slash = false;
+    }
+    p
 }
